@@ -49,6 +49,8 @@ type c07Case struct {
 	BadExt   string  `json:"bad_ext,omitempty"` // error case: unsupported extension
 	// PreExisting: the destination file already exists and holds (longer) unrelated content
 	PreExisting bool `json:"pre_existing,omitempty"`
+	// Stem: an infix of every file name used, e.g. ".en" or ".Final.v2" (the codec goes by what follows the last dot)
+	Stem string `json:"stem,omitempty"`
 }
 
 func init() { register("c07", checkC07) }
@@ -268,13 +270,13 @@ func checkC07(c c07Case) string {
 		}
 		return ""
 	}
-	srcPath := filepath.Join(dir, "src."+c.SrcExt)
+	srcPath := filepath.Join(dir, "src"+c.Stem+"."+c.SrcExt)
 	if err := os.WriteFile(srcPath, c.Doc, 0o644); err != nil {
 		return ""
 	}
 	otherPath := ""
 	if c.Other != "" {
-		otherPath = filepath.Join(dir, "other."+c.Other)
+		otherPath = filepath.Join(dir, "other"+c.Stem+"."+c.Other)
 		_ = os.WriteFile(otherPath, c.OtherDoc, 0o644)
 	}
 	opts := astisub.Options{Filename: srcPath, Teletext: astisub.TeletextOptions{Page: c.Page}}
@@ -315,7 +317,7 @@ func checkC07(c c07Case) string {
 		tcp = int64(src.Metadata.STLTimecodeStartOfProgramme)
 		dscTeletext = src.Metadata.STLDisplayStandardCode != "0"
 	}
-	dstPath := filepath.Join(dir, "dst."+c.DstExt)
+	dstPath := filepath.Join(dir, "dst"+c.Stem+"."+c.DstExt)
 	stale := bytes.Repeat([]byte("9\n99:59:59,000 --> 99:59:59,999\nstale content of an older file\n\n"), 400)
 	if c.PreExisting {
 		_ = os.WriteFile(dstPath, stale, 0o644)
@@ -407,7 +409,7 @@ func checkC07(c c07Case) string {
 				return ""
 			}
 		}
-		cliOut := filepath.Join(dir, "cli."+c.DstExt)
+		cliOut := filepath.Join(dir, "cli"+c.Stem+"."+c.DstExt)
 		if c.PreExisting {
 			_ = os.WriteFile(cliOut, stale, 0o644)
 		}
@@ -442,8 +444,8 @@ func c07Chain(c c07Case, dir, srcPath, otherPath string) string {
 	libIn, cliIn := srcPath, srcPath
 	steps := append([]c07Op{{Name: "convert"}}, c.Ops...)
 	for i, op := range steps {
-		libOut := filepath.Join(dir, fmt.Sprintf("lib%d.%s", i, c.DstExt))
-		cliOut := filepath.Join(dir, fmt.Sprintf("cli%d.%s", i, c.DstExt))
+		libOut := filepath.Join(dir, fmt.Sprintf("lib%d%s.%s", i, c.Stem, c.DstExt))
+		cliOut := filepath.Join(dir, fmt.Sprintf("cli%d%s.%s", i, c.Stem, c.DstExt))
 		cmd, args, ok := "convert", []string(nil), true
 		if op.Name != "convert" {
 			cmd, args, ok = op.cliArgs()
@@ -649,6 +651,7 @@ func TestC07(t *testing.T) {
 		c.Ops = genC07Ops(rt, maxEnd, withMerge)
 		c.CLI = rapid.IntRange(0, 4).Draw(rt, "cli") == 0
 		c.PreExisting = rapid.IntRange(0, 3).Draw(rt, "preexisting") == 0
+		c.Stem = rapid.SampledFrom([]string{"", "", ".en", ".Final.v2", ".srt", ".tar"}).Draw(rt, "stem")
 		c.Chain = c.CLI && len(c.Ops) >= 2 && rapid.Bool().Draw(rt, "chain")
 		if !seenPairs[c.Src+">"+c.Dst] {
 			seenPairs[c.Src+">"+c.Dst] = true
@@ -661,6 +664,9 @@ func TestC07(t *testing.T) {
 		}
 		if c.Chain {
 			ls = append(ls, "cli-chain")
+		}
+		if c.Stem != "" {
+			ls = append(ls, "file-name-with-several-dots")
 		}
 		ev.Case(nt, fmt.Sprintf("%v", c), ls...)
 		if nt && len(c.Doc) < 500 && c.Src != "stl" && c.Src != "ts" {
